@@ -18,6 +18,7 @@ import (
 	"encoding/json"
 	"fmt"
 	"os"
+	"sort"
 	"strings"
 	"testing"
 
@@ -50,6 +51,12 @@ func TestVerif(t *testing.T) {
 				fmt.Sscan(c["callers"], &cl)
 				fmt.Sscan(c["rounds"], &rd)
 				stressMerge(sd, int(cl), int(rd))
+			case "P":
+				if c["race"] == "1" {
+					poolRaceCase()
+				} else {
+					poolSeqCase(strings.Fields(c["ops"]))
+				}
 			case "M":
 				var mc MergeCase
 				if err := json.Unmarshal([]byte(c["case"]), &mc); err != nil {
@@ -96,6 +103,8 @@ func TestVerif(t *testing.T) {
 	for i := 0; i < run.Scale(30, 600); i++ {
 		stressMerge(rs.U64(), 2+rs.Intn(7), 1+rs.Intn(20))
 	}
+	// Pool.Get / release against the reference count of the model, with a forced release-vs-Get race
+	poolStream(r.Fork())
 	// every release order of the HTTP exchanges of 2 (thorough: 3) concurrent operations
 	// on one subject with a pre-existing referrer, with at most one injected index failure
 	ex := 0
@@ -116,13 +125,15 @@ func TestVerif(t *testing.T) {
 		e2eCase(t, genE2E(re, run.Thorough()))
 	}
 	// coverage floors: a stream that produced nothing is a broken check, not a pass
-	floors := map[string]int{"A/apply/": 1000, "A/remove-empty": 50, "A/filter": 50, "T/tag": 50, "K/caps": 5, "M/callers=": 100, "S/stress": 20,
-		"E/ops=": 100, "X/projected": 100, "L/listing": 100, "D/decoration": 50, "E/same-manifest-overlap": 5,
-		"E/fault/idx-": 20, "E/outcome=idxdel": 3, "E/outcome=err": 10, "E/skipgc": 10, "E/subjects=2": 5, "E/subjects=3": 5}
+	floors := map[string]int{"A/apply/": 1000, "A/remove-empty": 50, "A/filter": 50, "T/tag": 50, "K/caps": 5, "M/callers=": 100, "S/stress": 20, "P/sequential": 40, "P/race-forced": 2,
+		"E/ops=": 100, "X/projected": 100, "Y/liveness": 80, "L/listing": 100, "D/decoration": 50, "E/same-manifest-overlap": 5,
+		"E/fault/idx-": 20, "E/outcome=idxdel": 3, "E/outcome=err": 10, "E/skipgc": 10, "E/subjects=2": 5, "E/subjects=3": 5,
+		"E/fault/idx-put/lost": 30, "E/fault/idx-del/lost": 30} // lost responses are model events (EPutLost): the projected lines are judged
 	if run.Thorough() {
 		floors["E/shared-index-drop"] = 20
 		floors["E/fault/man-"] = 20
-		floors["E/fault/idx-put/lost"] = 20
+		floors["E/fault/idx-put/lost"] = 200
+		floors["E/fault/idx-del/lost"] = 200
 		floors["E/fault/idx-del/404"] = 20
 	}
 	for prefix, min := range floors {
@@ -287,6 +298,12 @@ func e2eCase(t *testing.T, c *E2ECase) {
 			}
 		}
 		for s := 0; s < c.NSubjects; s++ {
+			if in, obs, ok := yLine(c, res, s); ok {
+				run.Count("Y/liveness")
+				run.Case(run.NewID(), in, obs)
+			}
+		}
+		for s := 0; s < c.NSubjects; s++ {
 			if in, obs, ok := xLine(c, res, s); ok {
 				run.Count("X/projected")
 				run.Case(run.NewID(), in, obs)
@@ -402,7 +419,7 @@ func xLine(c *E2ECase, res *E2EResult, s int) (string, string, bool) {
 			f = 1
 		}
 		if e.Kind == "lost" {
-			f = 2 // took effect but answered 500: outside the model's fault assumption, line not judged
+			f = 2 // the index PUT took effect but was answered 500: EPutLost of the model (callers get the plain error, the index changed, the old index stays)
 		}
 		switch e.Class {
 		case "man-put", "man-get":
@@ -526,4 +543,131 @@ func typeID(t string) int {
 		}
 	}
 	return 99
+}
+
+// yLine projects an end-to-end run onto one subject WITH the manifest exchanges: the model
+// (Model/Live.v, operations on one manifest do not overlap) predicts which referrer manifests
+// are live; compared with the registry store.  Manifests touched by a failed operation (Z) are
+// not judged; runs with same-manifest overlap are not projected.
+func yLine(c *E2ECase, res *E2EResult, s int) (string, string, bool) {
+	local := map[int]int{}
+	var specs []string
+	z := map[int]bool{}
+	for _, ops := range c.Rounds {
+		seen := map[int]bool{}
+		for _, o := range ops {
+			if c.Mans[o.Man].Subject != s {
+				continue
+			}
+			if seen[o.Man] {
+				return "", "", false
+			}
+			seen[o.Man] = true
+			local[o.ID] = len(specs)
+			sign := "+"
+			if o.Kind == "delete" {
+				sign = "~"
+			}
+			specs = append(specs, fmt.Sprintf("%s%d:0:0", sign, o.Man+1))
+			if res.Ops[o.ID].Outcome == "err" {
+				z[o.Man+1] = true
+			}
+		}
+	}
+	if len(specs) == 0 {
+		return "", "", false
+	}
+	entered := map[int]bool{}
+	var evs []string
+	for _, e := range res.Events {
+		t, ok := local[e.Op]
+		if !ok {
+			for _, d := range e.Dropped {
+				if d == s {
+					evs = append(evs, "E")
+				}
+			}
+			continue
+		}
+		f := 0
+		if e.Fail {
+			f = 1
+		}
+		if e.Kind == "lost" {
+			f = 2 // the index PUT took effect but was answered 500: EPutLost of the model
+		}
+		o := opByID(c, e.Op)
+		switch e.Class {
+		case "man-put", "man-get":
+			if e.Status < 400 && !e.Fail {
+				entered[e.Op] = true
+				evs = append(evs, fmt.Sprintf("G%d", t))
+			} else {
+				z[o.Man+1] = true
+			}
+		case "idx-get":
+			evs = append(evs, fmt.Sprintf("P%d:%d", t, f))
+		case "idx-put":
+			evs = append(evs, fmt.Sprintf("U%d:%d", t, f))
+		case "idx-del":
+			evs = append(evs, fmt.Sprintf("D%d:%d", t, f))
+		case "man-del":
+			if e.Status < 400 && !e.Fail {
+				evs = append(evs, fmt.Sprintf("M%d", t))
+			} else {
+				evs = append(evs, fmt.Sprintf("N%d", t)) // the manifest DELETE failed: operation over
+				z[o.Man+1] = true
+			}
+		}
+	}
+	keyList := func(l []int) string {
+		if l == nil {
+			return "none"
+		}
+		if len(l) == 0 {
+			return "-"
+		}
+		out := make([]string, len(l))
+		for i, k := range l {
+			if k == -1 {
+				out[i] = "0"
+			} else {
+				out[i] = fmt.Sprint(k + 1)
+			}
+		}
+		return strings.Join(out, ",")
+	}
+	intList := func(m map[int]bool) string {
+		var ks []int
+		for k := range m {
+			ks = append(ks, k)
+		}
+		sort.Ints(ks)
+		if len(ks) == 0 {
+			return "-"
+		}
+		out := make([]string, len(ks))
+		for i, k := range ks {
+			out[i] = fmt.Sprint(k)
+		}
+		return strings.Join(out, ",")
+	}
+	live0 := map[int]bool{}
+	for _, k := range c.PreLive {
+		if c.Mans[k].Subject == s {
+			live0[k+1] = true
+		}
+	}
+	liveNow := map[int]bool{}
+	for k, m := range c.Mans {
+		if m.Subject == s && res.Live[k] && !z[k+1] {
+			liveNow[k+1] = true
+		}
+	}
+	sg := 0
+	if c.SkipGC {
+		sg = 1
+	}
+	in := fmt.Sprintf("Y %d %s %s %s %s %s", sg, keyList(c.PreIndex[s]), intList(live0), strings.Join(specs, ","), intList(z), strings.Join(evs, " "))
+	return in, fmt.Sprintf("Y L %s B 0", intList(liveNow)), true
 }
